@@ -23,6 +23,7 @@ def rxOf (tab : List ((Nat × Nat) × (Nat × PeerEvent))) : Reactions :=
 def parseOp (s : String) : Option Op :=
   match s.splitOn "." with
   | ["send", f] => (ofHex f).map Op.send
+  | ["sendn", f, n] => do let b ← ofHex f; let k ← n.toNat?; pure (Op.sendN b k)
   | ["auth", t, k] => do let tb ← ofHex t; let kb ← ofHex k; pure (Op.authenticate tb kb)
   | ["adv", ms] => ms.toNat?.map Op.advance
   | ["life", "none"] => some (Op.setMaxLifetime none)
